@@ -16,6 +16,7 @@
   express: a consumer uuid occurs once in a POST /allocations or /reshaper body, a (provider, class)
   pair occurs once per consumer, amounts are >= 1).
 -/
+import Placement.Lemmas.GuardTie
 import Placement.Lemmas.WfExample
 
 namespace Placement.Props.C08
